@@ -51,6 +51,22 @@ theorem interpolate_seg (p k : α × α) {x : α} (h0 : p.1 ≤ x) (h1 : x ≤ k
     interpolate p.2 k.2 ((x - p.1) / (k.1 - p.1)) = seg p k x := by
   rw [interpolate_of_mem (seg_t_mem h0 h1).1 (seg_t_mem h0 h1).2]; rfl
 
+/-! ### `clampedMean`: the clamp is the identity when the mean lies in `[min, max]` -/
+
+theorem clampedMean_eq {mn mx : α} {c : Centroid α} (h1 : mn ≤ c.mean) (h2 : c.mean ≤ mx) :
+    clampedMean mn mx c = c.mean := by
+  unfold clampedMean
+  simp [not_lt.2 h1, not_lt.2 h2]
+
+/-- on a well-formed state every centroid mean lies in `[min, max]`, so `clampedMean` is `mean` -/
+theorem clampedMean_eq_of_wf {s : St α} (h : WF s) {mn mx : α} (hmin : s.min = some mn)
+    (hmax : s.max = some mx) {c : Centroid α} (hc : c ∈ s.centroids) :
+    clampedMean mn mx c = c.mean := by
+  obtain ⟨mn', mx', h1, h2, hr⟩ := h.bounds (List.ne_nil_of_mem hc)
+  rw [hmin] at h1; rw [hmax] at h2
+  cases h1; cases h2
+  exact clampedMean_eq (hr c hc).1 (hr c hc).2
+
 /-! ### knots -/
 
 /-- knots of the quantile function from cumulative weight `cum` on (the knot of the previous
@@ -131,25 +147,26 @@ theorem knots_lastAbs (mx : α) (cs : List (Centroid α)) (cum : α) (p : α × 
 /-! ### `quantileLoop` -/
 
 /-- value computed in the right tail of `quantile` -/
-def tailVal (limit mx : α) (l : Centroid α) (cumEnd : α) : α :=
-  interpolate l.mean mx ((limit - (cumEnd - half * l.count)) / (half * l.count))
+def tailVal (limit mn mx : α) (l : Centroid α) (cumEnd : α) : α :=
+  interpolate (clampedMean mn mx l) mx ((limit - (cumEnd - half * l.count)) / (half * l.count))
 
 /-- The loop of `quantile`, entered with a previous centroid `cl` whose knot lies strictly below
 `limit`, never hits the `i > 0` assertion and computes the interpolation through the knots;
 the clamp of `interpolate` is inactive. -/
-theorem quantileLoop_spec (limit mx : α) (cs : List (Centroid α)) (cl : Centroid α) (cum : α)
+theorem quantileLoop_spec (limit mn mx : α) (cs : List (Centroid α)) (cl : Centroid α) (cum : α)
     (hprev : cum - cl.count / 2 < limit) (hlim : limit ≤ cum + sumCount cs)
-    (hcl : 0 < cl.count) (hpos : ∀ c ∈ cs, 0 < c.count) :
-    (∃ v c', quantileLoop limit cs (some cl) cum = (some (some v), c') ∧
+    (hcl : 0 < cl.count) (hpos : ∀ c ∈ cs, 0 < c.count)
+    (hrcl : mn ≤ cl.mean ∧ cl.mean ≤ mx) (hr : ∀ c ∈ cs, mn ≤ c.mean ∧ c.mean ≤ mx) :
+    (∃ v c', quantileLoop mn mx limit cs (some cl) cum = (some (some v), c') ∧
       v = plLE (cum - cl.count / 2, cl.mean) (knots mx cum cs) limit) ∨
-    (∃ l c', quantileLoop limit cs (some cl) cum = (none, c') ∧ (cl :: cs).getLast? = some l ∧
-      tailVal limit mx l c' = plLE (cum - cl.count / 2, cl.mean) (knots mx cum cs) limit) := by
+    (∃ l c', quantileLoop mn mx limit cs (some cl) cum = (none, c') ∧ (cl :: cs).getLast? = some l ∧
+      tailVal limit mn mx l c' = plLE (cum - cl.count / 2, cl.mean) (knots mx cum cs) limit) := by
   induction cs generalizing cl cum with
   | nil =>
     right
     refine ⟨cl, cum, rfl, rfl, ?_⟩
     simp only [sumCount_nil, add_zero] at hlim
-    simp only [knots, plLE, hlim, if_true, tailVal]
+    simp only [knots, plLE, hlim, if_true, tailVal, clampedMean_eq hrcl.1 hrcl.2]
     have ht : (limit - (cum - half * cl.count)) / (half * cl.count)
         = (limit - (cum - cl.count / 2)) / (cum - (cum - cl.count / 2)) := by
       rw [half_eq]; congr 1 <;> ring
@@ -158,8 +175,9 @@ theorem quantileLoop_spec (limit mx : α) (cs : List (Centroid α)) (cl : Centro
   | cons c cs ih =>
     have hc := hpos c (by simp)
     have hhalf : cum + c.count * half = cum + c.count / 2 := by rw [half_eq]; ring
+    have hrc := hr c (by simp)
     unfold quantileLoop
-    simp only [hhalf, knots, plLE]
+    simp only [hhalf, knots, plLE, clampedMean_eq hrcl.1 hrcl.2, clampedMean_eq hrc.1 hrc.2]
     by_cases h : limit ≤ cum + c.count / 2
     · left
       simp only [h, if_true]
@@ -177,23 +195,27 @@ theorem quantileLoop_spec (limit mx : α) (cs : List (Centroid α)) (cl : Centro
       · simp only [sumCount_cons] at hlim; linarith
       · exact hc
       · exact fun d hd => hpos d (by simp [hd])
+      · exact hrc
+      · exact fun d hd => hr d (by simp [hd])
 
 /-- `quantileInner` is piecewise-linear interpolation through the knots, evaluated at `S·q`. -/
 theorem quantileInner_eq {s : St α} {c0 : Centroid α} {cs : List (Centroid α)} {mn mx q : α}
     (hc : s.centroids = c0 :: cs) (hmin : s.min = some mn) (hmax : s.max = some mx)
-    (hpos : ∀ c ∈ s.centroids, 0 < c.count) (hq0 : 0 ≤ q) (hq1 : q ≤ 1) :
+    (hpos : ∀ c ∈ s.centroids, 0 < c.count) (hr : ∀ c ∈ s.centroids, mn ≤ c.mean ∧ c.mean ≤ mx)
+    (hq0 : 0 ≤ q) (hq1 : q ≤ 1) :
     quantileInner s q = .val (plLE (0, mn) (knots mx 0 (c0 :: cs)) (sumCount (c0 :: cs) * q)) := by
   obtain ⟨cents, n, mn', mx', bl, mb⟩ := s
-  simp only at hc hmin hmax hpos
+  simp only at hc hmin hmax hpos hr
   subst hc hmin hmax
   have hc0 := hpos c0 (by simp)
+  have hr0 := hr c0 (by simp)
   have hS : 0 ≤ sumCount (c0 :: cs) := sumCount_nonneg hpos
   have hl0 : 0 ≤ sumCount (c0 :: cs) * q := mul_nonneg hS hq0
   have hl1 : sumCount (c0 :: cs) * q ≤ sumCount (c0 :: cs) := by
     have := mul_le_mul_of_nonneg_left hq1 hS; simpa using this
   have hhalf : c0.count * half = c0.count / 2 := by rw [half_eq]; ring
   unfold quantileInner
-  simp only [totalCount_eq, hhalf, knots, plLE, zero_add]
+  simp only [totalCount_eq, hhalf, knots, plLE, zero_add, clampedMean_eq hr0.1 hr0.2]
   generalize sumCount (c0 :: cs) * q = limit at *
   by_cases h : limit ≤ c0.count / 2
   · simp only [h, if_true]
@@ -207,8 +229,9 @@ theorem quantileInner_eq {s : St α} {c0 : Centroid α} {cs : List (Centroid α)
     have h' : ¬ limit ≤ 0 + c0.count * half := by rw [zero_add, hhalf]; exact h
     simp only [h', if_false]
     have e : c0.count / 2 = 0 + c0.count - c0.count / 2 := by ring
-    have hspec := quantileLoop_spec limit mx cs c0 (0 + c0.count)
+    have hspec := quantileLoop_spec limit mn mx cs c0 (0 + c0.count)
       (by rw [← e]; exact not_le.1 h) (by simpa using hl1) hc0 (fun d hd => hpos d (by simp [hd]))
+      hr0 (fun d hd => hr d (by simp [hd]))
     rw [← e] at hspec
     simp only [zero_add] at hspec ⊢
     rcases hspec with ⟨v, c', h1, h2⟩ | ⟨l, c', h1, h2, h3⟩
@@ -217,11 +240,12 @@ theorem quantileInner_eq {s : St α} {c0 : Centroid α} {cs : List (Centroid α)
 
 /-! ### `cdfLoop` -/
 
-theorem cdfLoop_spec (x total mx : α) (cs : List (Centroid α)) (cum lastMean lastCum : α)
-    (hx : lastMean ≤ x) (htot : total = cum + sumCount cs) (ht0 : total ≠ 0) :
-    (∃ r a b, cdfLoop x total cs cum lastMean lastCum = (some r, a, b) ∧
+theorem cdfLoop_spec (x total mn mx : α) (cs : List (Centroid α)) (cum lastMean lastCum : α)
+    (hx : lastMean ≤ x) (htot : total = cum + sumCount cs) (ht0 : total ≠ 0)
+    (hr : ∀ c ∈ cs, mn ≤ c.mean ∧ c.mean ≤ mx) :
+    (∃ r a b, cdfLoop mn mx x total cs cum lastMean lastCum = (some r, a, b) ∧
       r = plLT (lastMean, lastCum) (swap (knots mx cum cs)) x / total) ∨
-    (∃ lm lc, cdfLoop x total cs cum lastMean lastCum = (none, lm, lc) ∧
+    (∃ lm lc, cdfLoop mn mx x total cs cum lastMean lastCum = (none, lm, lc) ∧
       (if x < mx then interpolate lc total ((x - lm) / (mx - lm)) / total else 1)
         = plLT (lastMean, lastCum) (swap (knots mx cum cs)) x / total) := by
   induction cs generalizing cum lastMean lastCum with
@@ -239,8 +263,9 @@ theorem cdfLoop_spec (x total mx : α) (cs : List (Centroid α)) (cum lastMean l
       rw [div_self ht0]
   | cons c cs ih =>
     have hhalf : cum + half * c.count = cum + c.count / 2 := by rw [half_eq]; ring
+    have hrc := hr c (by simp)
     unfold cdfLoop
-    simp only [hhalf, knots, swap, List.map_cons, plLT, Prod.swap_prod_mk]
+    simp only [hhalf, knots, swap, List.map_cons, plLT, Prod.swap_prod_mk, clampedMean_eq hrc.1 hrc.2]
     by_cases h : x < c.mean
     · left
       simp only [h, if_true]
@@ -249,20 +274,21 @@ theorem cdfLoop_spec (x total mx : α) (cs : List (Centroid α)) (cum lastMean l
       exact interpolate_seg (lastMean, lastCum) (c.mean, cum + c.count / 2) hx h.le
     · simp only [h, if_false]
       exact ih (cum + c.count) c.mean (cum + c.count / 2) (not_lt.1 h)
-        (by rw [htot, sumCount_cons]; ring)
+        (by rw [htot, sumCount_cons]; ring) (fun d hd => hr d (by simp [hd]))
 
 /-- `cdfInner` is (for `min ≤ x`) interpolation through the swapped knots, divided by `S`. -/
 theorem cdfInner_eq {s : St α} {c0 : Centroid α} {cs : List (Centroid α)} {mn mx x : α}
     (hc : s.centroids = c0 :: cs) (hmin : s.min = some mn) (hmax : s.max = some mx)
-    (hpos : ∀ c ∈ s.centroids, 0 < c.count) (hx : mn ≤ x) :
+    (hpos : ∀ c ∈ s.centroids, 0 < c.count) (hr : ∀ c ∈ s.centroids, mn ≤ c.mean ∧ c.mean ≤ mx)
+    (hx : mn ≤ x) :
     cdfInner s x = some (plLT (mn, 0) (swap (knots mx 0 (c0 :: cs))) x / sumCount (c0 :: cs)) := by
   obtain ⟨cents, n, mn', mx', bl, mb⟩ := s
-  simp only at hc hmin hmax hpos
+  simp only at hc hmin hmax hpos hr
   subst hc hmin hmax
   have hS : 0 < sumCount (c0 :: cs) := sumCount_pos hpos (by simp)
   unfold cdfInner
   simp only [totalCount_eq, not_lt.2 hx, if_false]
-  rcases cdfLoop_spec x (sumCount (c0 :: cs)) mx (c0 :: cs) 0 mn 0 hx (by simp) hS.ne'
+  rcases cdfLoop_spec x (sumCount (c0 :: cs)) mn mx (c0 :: cs) 0 mn 0 hx (by simp) hS.ne' hr
     with ⟨r, a, b, h1, h2⟩ | ⟨lm, lc, h1, h2⟩
   · rw [h1]; simp only [h2]
   · rw [h1]; simp only []
